@@ -28,6 +28,9 @@ FTYPES = [
     (sx.tpath(['std', 'vec', sx.seg('Vec', ('angle', [sx.gty(T)]))], lead=True), ': : std : : vec : : Vec < T >', True),
     (sx.tgen('Wrap', sx.tid('r#T')), 'Wrap < r#T >', True),
     (sx.tpath([sx.seg('Arr', ('angle', [sx.gconst(sx.cpath(['N']))]))]), 'Arr < N >', True),
+    # names the item only through `Self`: no parameter is mentioned - except in the operator impls, which see the field types
+    # with `Self` written out (C03_mentions_after_self_expansion in Coq)
+    (sx.tgen('Option', sx.tgen('Box', sx.tid('Self'))), 'Option < Box < Self > >', False, 'self-only'),
 ]
 
 GENERICS = sx.generics([sx.gp_lt('a'), sx.gp_ty('T'), sx.gp_ty('U'), sx.gp_const('N', sx.tid('usize'))],
@@ -235,7 +238,9 @@ class BoundGen:
                 ft = FTYPES[self.r.randrange(len(FTYPES))]
                 fattrs, flevels = self.position(tr, 'field', feats, fopts[fi])
                 fields_s.append(sx.field(ft[0], name=('f%d' % fi) if named else None, attrs=fattrs))
-                fplans.append(dict(levels=flevels, ty=ft[1], mentions=ft[2], opts=fopts[fi]))
+                fplans.append(dict(levels=flevels, ty=ft[1], mentions=ft[2], opts=fopts[fi], self_only=len(ft) > 3))
+                if len(ft) > 3:
+                    feats.add('Self-only-field-type')
             fs = sx.named(fields_s) if named else (sx.unnamed(fields_s) if (nf or self.r.random() < 0.5) else sx.UNIT)
             variants_s.append((vattrs, fs))
             plan.append(dict(levels=vlevels, fields=fplans))
@@ -316,8 +321,11 @@ def expected_where(meta):
                 used = False
             if tr == 'Default' and f['opts'].get('default_value'):
                 used = False
-            if cf and used and f['mentions']:
-                ts.append(f['ty'])
+            ty, mentions = f['ty'], f['mentions']
+            if f.get('self_only') and meta['kind'] != 'plain':
+                ty, mentions = ty.replace('Self', meta['this']), True
+            if cf and used and mentions:
+                ts.append(ty)
     return ts, ps
 
 
